@@ -104,7 +104,7 @@ class Mini:
             a, b = self.ev(e.left, env), self.ev(e.right, env)
             ops = {ast.Add: lambda: a + b, ast.Sub: lambda: a - b, ast.Mult: lambda: a * b, ast.FloorDiv: lambda: a // b,
                    ast.Mod: lambda: a % b, ast.BitOr: lambda: a | b, ast.BitAnd: lambda: a & b, ast.Pow: lambda: a ** b,
-                   ast.Div: lambda: a / b}
+                   ast.Div: lambda: a / b, ast.LShift: lambda: a << b, ast.RShift: lambda: a >> b, ast.BitXor: lambda: a ^ b}
             if type(e.op) in ops:
                 return ops[type(e.op)]()
             raise NoEval("binary operator")
@@ -188,7 +188,8 @@ class Mini:
 
     def _call(self, e, env):
         fn = e.func
-        if e.keywords and not (isinstance(fn, ast.Name) and (fn.id in self.funcs or fn.id in self.externals or fn.id == "sorted")):
+        if e.keywords and not (isinstance(fn, ast.Attribute) or (isinstance(fn, ast.Name) and (
+                fn.id in self.funcs or fn.id in self.externals or fn.id == "sorted" or isinstance(env.get(fn.id), tuple)))):
             raise NoEval("keyword arguments")
         if isinstance(fn, ast.Name):
             if fn.id == "slice":
@@ -216,6 +217,11 @@ class Mini:
             if isinstance(env.get(fn.id), tuple) and env[fn.id][:1] == ("mathfn",):
                 import math as _math
                 return getattr(_math, env[fn.id][1])(*[self.ev(a, env) for a in e.args])
+            if isinstance(env.get(fn.id), tuple) and env[fn.id][:1] == ("minifn",):
+                _tag, name_, extra = env[fn.id]
+                kw = {k.arg: self.ev(k.value, env) for k in e.keywords}
+                kw.update(extra)
+                return self.call(self.funcs[name_], [self.ev(a, env) for a in e.args], kw)
             if fn.id in self.externals:
                 return self.externals[fn.id](*[self.ev(a, env) for a in e.args], **{k.arg: self.ev(k.value, env) for k in e.keywords})
             if fn.id in self.funcs:
@@ -243,7 +249,17 @@ class Mini:
                 import bisect as _b
                 seq, x = self.ev(e.args[0], env), self.ev(e.args[1], env)
                 return (_b.bisect_left if fn.attr == "bisect_left" else _b.bisect_right)(seq, x)
+            if isinstance(fn.value, ast.Name) and fn.value.id == "itertools" and "itertools" not in env:
+                import itertools as _it
+                if fn.attr not in ("product", "combinations", "permutations", "chain", "count"):
+                    raise NoEval(f"itertools.{fn.attr}")
+                if fn.attr == "count":
+                    raise NoEval("itertools.count")
+                return list(getattr(_it, fn.attr)(*[self.ev(a, env) for a in e.args]))
             recv = self.ev(fn.value, env) if not (isinstance(fn.value, ast.Name) and fn.value.id == "math" and "math" not in env) else __import__("math")
+            import types as _types
+            if isinstance(recv, _types.SimpleNamespace) and callable(getattr(recv, fn.attr, None)):
+                return getattr(recv, fn.attr)(*[self.ev(a, env) for a in e.args], **{k.arg: self.ev(k.value, env) for k in e.keywords})
             import math as _math
             if recv is _math:
                 if fn.attr not in _MATH:
